@@ -193,6 +193,25 @@ def main(argv=None):
                     nb_dis += 1
                 else:
                     n_dis += 1
+            elif o["verdict"] == "candidate":
+                # a model of a *weakened* query: a violation only if the native replay reproduces it on the real code
+                ok = False
+                if r.get("replay") and o.get("replay_inputs") is not None:
+                    os.makedirs(os.path.join(VERIF, "replays"), exist_ok=True)
+                    tmp = os.path.join(VERIF, "replays", f"candidate_{prop}_{os.getpid()}.json")
+                    with open(tmp, "w") as fh:
+                        json.dump({"repo": repo_root(), "native": {"module": r["replay"][0], "function": r["replay"][1],
+                                                                    "inputs": o["replay_inputs"]}}, fh, default=str)
+                    ok = bool(native_replay(tmp).get("reproduced"))
+                    os.unlink(tmp)
+                if ok:
+                    f = match_finding(kf, prop, o)
+                    if f is not None:
+                        known.append((o, f, r))
+                    else:
+                        violations.append((o, r))
+                else:
+                    undecided.append((r["unit"], f"{o['name']} [{o['path']}]: solver returned unknown (candidate model did not replay)"))
             elif o["verdict"] == "sat":
                 f = match_finding(kf, prop, o)
                 if f is not None:
